@@ -259,6 +259,9 @@ def run(P, R, tier):
     shiftdir_rule(P, R)
     errview_rule(P, R)
     growbail_rule(P, R)
+    usedump_rule(P, R)
+    bracketend_rule(P, R)
+    boundfirst_rule(P, R)
     progindex_rule(P, R)
     samegas_rule(P, R)
     nomaster_rule(P, R)
@@ -2079,6 +2082,53 @@ def samegas_rule(P, R):
                     file=f["file"], line=ifs[0][4][1], function=f["q"])
 
 
+def _norm40(n):
+    return " ".join(T.text(T.strip_casts(n), -40).split())
+
+
+def nulltests(cond):
+    out = set()
+    for y in T.walk(cond):
+        if y[0] == "Bin" and y[2] in ("==", "!="):
+            for a, b in ((y[3], y[4]), (y[4], y[3])):
+                b = T.strip_casts(b)
+                if T.is_node(b) and b[0] == "Lit" and str(b[3]) == "0":
+                    out.add(_norm40(a))
+    return out
+
+def governing(node, target, acc):
+    """conditions that govern `target` inside `node`: the conditions of enclosing if / loop statements, of the statement it sits in,
+    and of the if statements that precede it in an enclosing statement list (the report-and-continue idiom)"""
+    if node is target:
+        return True
+    if not T.is_node(node):
+        return False
+    if node[0] == "Compound":
+        for i, st in enumerate(node[2]):
+            if governing(st, target, acc):
+                for prev in node[2][:i]:
+                    if T.is_node(prev) and prev[0] == "If":
+                        acc.append(prev[2])
+                return True
+        return False
+    for ch in node[2:]:
+        if isinstance(ch, list) and governing_any(ch, target, acc):
+            if node[0] in ("If", "While") :
+                acc.append(node[2])
+            elif node[0] == "For" and T.is_node(node[3]):
+                acc.append(node[3])
+            return True
+    return False
+
+def in_sformatf(body, target):
+    return any(c[0] == "Call" and T.callee_name(c) == "sformatf" and any(z is target for z in T.walk(c)) for c in T.walk(body))
+
+def governing_any(ch, target, acc):
+    if T.is_node(ch):
+        return governing(ch, target, acc)
+    return any(isinstance(c, list) and governing_any(c, target, acc) for c in ch)
+
+
 NOMASTER_EXEMPT = {
     "Phreeqc::tidy_min_surface|sformatf": "the warning text names the master species of the component found above; a component whose element has no master made the "
                                           "function report `Surface formula does not contain a surface master species` and `continue` before this loop "
@@ -2098,47 +2148,6 @@ def nomaster_rule(P, R):
 
     def norm(n):
         return " ".join(T.text(T.strip_casts(n), -40).split())
-    def nulltests(cond):
-        out = set()
-        for y in T.walk(cond):
-            if y[0] == "Bin" and y[2] in ("==", "!="):
-                for a, b in ((y[3], y[4]), (y[4], y[3])):
-                    b = T.strip_casts(b)
-                    if T.is_node(b) and b[0] == "Lit" and str(b[3]) == "0":
-                        out.add(norm(a))
-        return out
-
-    def governing(node, target, acc):
-        """conditions that govern `target` inside `node`: the conditions of enclosing if / loop statements, of the statement it sits in,
-        and of the if statements that precede it in an enclosing statement list (the report-and-continue idiom)"""
-        if node is target:
-            return True
-        if not T.is_node(node):
-            return False
-        if node[0] == "Compound":
-            for i, st in enumerate(node[2]):
-                if governing(st, target, acc):
-                    for prev in node[2][:i]:
-                        if T.is_node(prev) and prev[0] == "If":
-                            acc.append(prev[2])
-                    return True
-            return False
-        for ch in node[2:]:
-            if isinstance(ch, list) and governing_any(ch, target, acc):
-                if node[0] in ("If", "While") :
-                    acc.append(node[2])
-                elif node[0] == "For" and T.is_node(node[3]):
-                    acc.append(node[3])
-                return True
-        return False
-
-    def in_sformatf(body, target):
-        return any(c[0] == "Call" and T.callee_name(c) == "sformatf" and any(z is target for z in T.walk(c)) for c in T.walk(body))
-
-    def governing_any(ch, target, acc):
-        if T.is_node(ch):
-            return governing(ch, target, acc)
-        return any(isinstance(c, list) and governing_any(c, target, acc) for c in ch)
     n_inst = 0
     for k, g in sorted(P.functions.items(), key=lambda kv: kv[1]["q"]):
         if not g["file"].endswith("tidy.cpp"):
@@ -2167,3 +2176,134 @@ def nomaster_rule(P, R):
                             "crashes the process here" % (norm(b)[-60:], y[1]), file=g["file"], line=y[1], function=g["q"])
     if n_inst < 18:
         R.anchor_missing(RULE, "only %d dereferences of element::master / primary in tidy.cpp (20 confirmed)" % n_inst)
+
+
+def usedump_rule(P, R):
+    """Use2cxxStorageBin copies what the `use` structure points at into a storage bin; set_and_run_wrapper calls it to write error.inp
+    when a calculation fails on every convergence setting.  The `<kind>_in` flags are set when a block is READ, the pointers are
+    resolved only when the entity is used, so a failure of an earlier calculation in the same simulation finds flags without pointers:
+    every dereference of a local taken from use.Get_<kind>_ptr() is governed by a null test of that local."""
+    RULE = "C08.usedump"
+    R.rule(RULE, "Use2cxxStorageBin: a pointer taken from the use structure is null-tested before it is dereferenced or walked", minimum=3)
+    f = P.one("Phreeqc::Use2cxxStorageBin")
+    locs = {}
+    ndecl = 0
+    for d in T.walk(f["body"]):
+        if d[0] == "Decl":
+            for v in d[2]:
+                if len(v) > 2 and T.is_node(v[2]) and re.search(r"use\.Get_\w+_ptr\(\)$|^Utilities::Rxn_find<", T.text(v[2], -40).replace("this.", "")):
+                    locs[v[0]] = d[1]
+                    ndecl += 1
+    n_inst = 0
+    for y in T.walk(f["body"]):
+        uses = []
+        if y[0] == "Member" and T.is_node(y[3]):
+            b = T.strip_casts(y[3])
+            if T.is_node(b) and b[0] == "Ref" and b[3] in locs:
+                uses.append(b[3])
+        elif y[0] == "Call" and T.call_obj(y) is not None:
+            b = T.strip_casts(T.call_obj(y))
+            if T.is_node(b) and b[0] == "Ref" and b[3] in locs:
+                uses.append(b[3])
+        for v in uses:
+            n_inst += 1
+            inst = "%s@%d" % (v, y[1] - f["line"])
+            acc = []
+            governing(f["body"], y, acc)
+            if any(v in nulltests(c) for c in acc):
+                R.ok(RULE, inst, "%s null-tested in a condition that governs line %d" % (v, y[1]))
+            else:
+                R.violation(RULE, inst, "`%s` (from the use structure) is dereferenced at line %d without a null test: a MIX that was read but not yet resolved when an earlier "
+                            "calculation of the simulation fails makes the error dump crash the process" % (v, y[1]), file=f["file"], line=y[1], function=f["q"])
+    if ndecl < 12 or n_inst < 2:
+        R.anchor_missing(RULE, "locals taken from use.Get_<kind>_ptr() / Rxn_find: %d (13 confirmed); dereferences: %d (2 confirmed)" % (ndecl, n_inst))
+    else:
+        R.ok(RULE, "census", "%d locals from the use structure / Rxn_find; those not listed are only passed on" % ndecl)
+
+
+def boundfirst_rule(P, R):
+    """Within one `||` / `&&` chain the operands are evaluated left to right: a subscript `v[i]` must not stand to the LEFT of the
+    operand that compares the same `i` with the count / size() of the data (spread_row_to_solution read type_vector[i] and then asked
+    `data->count <= i`).  Program-wide over if / while / for conditions; the pairs in the right order are the counted instances."""
+    RULE = "C08.boundfirst"
+    R.rule(RULE, "in a condition, the comparison of an index with the count / size() stands before the subscript that uses the index", minimum=20)
+
+    def flat(c, op):
+        c = T.strip_casts(c)
+        while T.is_node(c) and c[0] == "Paren":
+            c = T.strip_casts(c[2])
+        if T.is_node(c) and c[0] == "Bin" and c[2] == op:
+            return flat(c[3], op) + flat(c[4], op)
+        return [c]
+    good = 0
+    for k, g in sorted(P.functions.items(), key=lambda kv: kv[1]["q"]):
+        for x in T.walk(g["body"]):
+            cond = x[2] if x[0] in ("If", "While") else (x[3] if x[0] == "For" else None)
+            if not T.is_node(cond):
+                continue
+            for op in ("||", "&&"):
+                ops = flat(cond, op)
+                if len(ops) < 2:
+                    continue
+                subs, bounds = [], []
+                for a, o in enumerate(ops):
+                    if not T.is_node(o):
+                        continue
+                    for y in T.walk(o):
+                        ix = None
+                        if y[0] == "Index" and len(y) > 3 and T.is_node(y[3]):
+                            ix = T.text(y[3], -40)
+                        elif y[0] == "Call" and T.callee_name(y) == "operator[]" and len(y[4]) >= 2:
+                            ix = T.text(y[4][1], -40)
+                        if ix and re.match(r"^\w+$", ix):
+                            subs.append((a, ix, y[1]))
+                    if o[0] == "Bin" and o[2] in ("<", "<=", ">", ">=", "=="):
+                        l_, r_ = T.text(o[3], -40), T.text(o[4], -40)
+                        for s_, t_ in ((l_, r_), (r_, l_)):
+                            if re.match(r"^\w+$", s_) and re.search(r"count|size\(\)", t_):
+                                bounds.append((a, s_))
+                for a, ix, line in subs:
+                    for b, v in bounds:
+                        if v != ix or a == b:
+                            continue
+                        if b < a:
+                            good += 1
+                        else:
+                            R.violation(RULE, "%s@%d:%s" % (g["q"].split("::")[-1], x[1] - g["line"], ix), "the condition at line %d subscripts with `%s` in operand %d and compares "
+                                        "`%s` with the count only in operand %d: a row shorter than expected is read past its end first" % (x[1], ix, a + 1, ix, b + 1),
+                                        file=g["file"], line=line, function=g["q"])
+    R.table("C08.boundfirst.census", {"bound_before_subscript_pairs": good})
+    for _ in range(good):
+        R.ok(RULE, "pair", "bound first")
+    if good < 20:
+        R.anchor_missing(RULE, "only %d bound-then-subscript pairs found (22 on the pinned tree)" % good)
+
+
+def bracketend_rule(P, R):
+    """The two element readers accept `[name]` and loop `while ((c = *cursor) != ']')`.  The loop must look for the end of the text BEFORE
+    it stores the character and advances: with `[` as the last character the old loops pushed the terminator, stepped past it and read on
+    through whatever follows the token.  Rule: in every `until ]` loop of a get_elt function the first statement of the body is an `if`
+    that tests the end (the character against 0, or the cursor against `end`) and leaves the loop or the function."""
+    RULE = "C08.bracketend"
+    R.rule(RULE, "get_elt: the `until ]` loops test for the end of the text before they store and advance", minimum=2)
+    n_inst = 0
+    for q in ("CParser::get_elt", "Phreeqc::get_elt"):
+        for g in P.fns_named(q):
+            for x in T.walk(g["body"]):
+                if x[0] != "While" or "!= 93" not in T.text(x[2], -40):
+                    continue
+                n_inst += 1
+                inst = "%s@%d" % (q, x[1] - g["line"])
+                body = x[3]
+                st = [y for y in (body[2] if body[0] == "Compound" else [body]) if T.is_node(y)]
+                first = st[0] if st else None
+                ok = (first is not None and first[0] == "If" and (re.search(r"== 0\b", T.text(first[2], -40)) or re.search(r"\bend\b", T.text(first[2], -40)))
+                      and any(y[0] in ("Return", "Break") for y in T.walk(first[3])))
+                in_cond = re.search(r"!= 0\b", T.text(x[2], -40)) is not None
+                if ok or in_cond:
+                    R.ok(RULE, inst, "end of text tested first (%s)" % (T.text(first[2], -40)[:40] if ok else "in the loop condition"))
+                else:
+                    R.violation(RULE, inst, "the loop at line %d stores the character and advances the cursor before any test for the end of the text: `[` as the last character of a "
+                                "token makes it step over the terminator and read what follows the token" % x[1], file=g["file"], line=x[1], function=g["q"])
+    if n_inst < 2:
+        R.anchor_missing(RULE, "only %d `until ]` loops in the get_elt functions" % n_inst)
